@@ -1,4 +1,5 @@
 import ScrutModel.Model.Diff
+import ScrutModel.Model.Newline
 import Driver.Util
 /-! `diff` op: the matcher on a quantifier vector and a match matrix. -/
 open Scrut
@@ -35,6 +36,17 @@ def opDiff (args : List String) : String :=
       let d := Diff.diff n m es mt
       (if Diff.hasDiff d then "D " else "S ") ++ ";".intercalate (d.map showDL)
     | _, _ => "bad-op"
+  | _ => "bad-op"
+
+/-- `split <hex>`: lengths of the lines `split_at_newline` cuts the output into -/
+def opSplit (args : List String) : String :=
+  match args with
+  | [h] =>
+    match unhex h with
+    | some bs =>
+      let ls := Newline.splitAtNewline bs
+      if ls.isEmpty then "-" else showNats (ls.map List.length)
+    | none => "bad-op"
   | _ => "bad-op"
 
 end Driver
